@@ -138,7 +138,7 @@ func init() {
 		}
 		return fmt.Sprintf("ok keys=%d dup=%d zero=%d", len(keys), dup, zero)
 	})
-	registerEval("game", func(a []string) string {
+	gameEval := func(a []string) string {
 		seed, _ := strconv.ParseInt(a[0], 10, 64)
 		z := zobrist(seed)
 		i := 1
@@ -208,7 +208,9 @@ func init() {
 			}
 		}
 		return strings.Join(outs, " | ")
-	})
+	}
+	registerEval("game", gameEval)
+	registerEval("gamex", gameEval)
 	register("game", genGame)
 }
 
@@ -221,6 +223,7 @@ type gameSim struct {
 	active int
 	ops    []string
 	tags   map[string]bool
+	deep   bool // take-backs below fork points allowed (emitted as `gamex`: implementation vs arena model only)
 }
 
 func (g *gameSim) push(r *rand.Rand, pick func([]board.Move) (board.Move, bool)) bool {
@@ -256,7 +259,12 @@ func (g *gameSim) push(r *rand.Rand, pick func([]board.Move) (board.Move, bool))
 }
 
 func (g *gameSim) pop() {
-	if g.depth[g.active] > g.base[g.active] {
+	// deep: take-backs below the point where the board was forked (or forked from) are allowed too. The boards then share
+	// mutable history; the reference has no opinion there, the arena model of the pointers has (`gamex`: impl vs model only)
+	if g.depth[g.active] > g.base[g.active] || (g.deep && g.depth[g.active] > 0) {
+		if g.depth[g.active] <= g.base[g.active] {
+			g.tags["pop-below-fork-point"] = true
+		}
 		g.boards[g.active].PopMove()
 		g.depth[g.active]--
 		g.ops = append(g.ops, "pop")
@@ -434,6 +442,7 @@ func genGame(o *Out, r *rand.Rand, thorough bool) {
 			}
 		}
 		g := newSim(seed, start)
+		g.deep = i%5 == 4
 		style := r.Intn(4)
 		steps := 10 + r.Intn(60)
 		if style == 1 {
@@ -501,7 +510,11 @@ func genGame(o *Out, r *rand.Rand, thorough bool) {
 			g.ops = ops2
 			g.tags["sparse-observation"] = true
 		}
-		line := fmt.Sprintf("game %d %s ; %s", seed, start, strings.Join(g.ops, " "))
+		word := "game"
+		if g.deep {
+			word = "gamex"
+		}
+		line := fmt.Sprintf("%s %d %s ; %s", word, seed, start, strings.Join(g.ops, " "))
 		o.do(line)
 		nt := false
 		for t := range g.tags {
